@@ -13,7 +13,7 @@ def run(chk):
     recs = core.run_driver('psd', tier=chk.tier, seed=chk.seed)
     chk.validate('psd', 'Trace_Psd', 'Trace_Psd.cfg', recs, driver='psd', jobs=14)
     goods = [r for r in recs if r['kind'] == 'psd' and r['exc'] == '' and r['oshape'][r['sd']] >= 2]
-    good = goods[0]
+    good = goods[0] if goods else None
 
     def corrupt(r):
         def first(o):
